@@ -59,7 +59,7 @@ class SeqProduct(explorer.Product):
         return {"a": self.cls(s1), "b": self.cls(s2), "model": RefSequencer(v)}
 
     def menu(self, st):
-        return [("next",)] + [("set",) + s for s in start_menu(self.values)]
+        return [("next",)] + [("set",) + s for s in start_menu(self.values)] + [("set_shared", "init", self.values[1]), ("set_shared", "ping", self.values[3])]
 
     def apply(self, st, op):
         if op[0] == "next":
@@ -70,6 +70,17 @@ class SeqProduct(explorer.Product):
             rm = st["model"].next_sequence()
             if ra != rm or rb != rm:
                 return f"request #{st['model'].n - 1}: peers returned {ra}, {rb}; start + n mod 10 = {rm}"
+            return None
+        if op[0] == "set_shared":
+            # one start object handed to BOTH peers (and kept by the harness): sharing it must not couple them
+            _, ctor, value = op
+            s, v = make_start(ctor, value)
+            st.setdefault("kept", []).append(s)
+            for side in ("a", "b"):
+                st[side].set_sequence_start(s)
+            if s.value != v:
+                return f"the shared start object changed its value to {s.value}"
+            st["model"].set_start(v)
             return None
         _, ctor, value = op
         for side in ("a", "b"):
